@@ -57,55 +57,85 @@ def check(ctx):
     ctx.guarded(o, lambda o: leaf_order(ctx, o, PassShape(ctx, FWD)))
 
 
+def _clearing_loops(f):
+    """For loops `for t in <w>.tasks:` of f that store None into a date/work field of t"""
+    out = []
+    for lp in [n for n in walk_no_nested(f.node) if isinstance(n, ast.For)]:
+        tv = lp.target.id if isinstance(lp.target, ast.Name) else None
+        if tv is None:
+            continue
+        sts = [(st, tgt, val) for st, tgt, val in facts.attr_stores(f) if any(x is st for x in ast.walk(lp)) and
+               isinstance(tgt.value, ast.Name) and tgt.value.id == tv and tgt.attr in FIELDS and
+               isinstance(val, ast.Constant) and val.value is None]
+        if sts:
+            out.append((lp, tv, sts))
+    return out
+
+
 def cleared(ctx, o, S):
+    """the clearing loop lives in a helper called from calc (today: __prepare_tasks) or in calc itself"""
     prog = ctx.prog
-    prep = prog.func(S['prepare'])
     calc = prog.func(S['calc'])
     cfg = cfg_of(calc)
     ex = Expander(prog, calc, ctx.typer, inline=False)
     inp = calc.params[1]
-    calls = facts.calls_named(calc, prep.name)
     pcalls = facts.calls_named(calc, prog.func(S['pass_']).name)
-    if not calls:
-        o.refute(calc, calc.node, prep.name, "user values on summary tasks are never cleared before scheduling")
+    # (function holding the loop, loop, loop var, stores, wbs expression in calc's terms, calc node, name of the wbs inside the holder)
+    sites = []
+    for lp, tv, sts in _clearing_loops(calc):
+        m = match("$w.tasks", lp.iter)
+        w = ex.expand(m['w'], cfg.node_of(lp)) if m else None
+        sites.append((calc, lp, tv, sts, w, cfg.node_of(lp), src(m['w']) if m else None, lp))
+    helpers = []
+    for c in [n for n in walk_no_nested(calc.node) if isinstance(n, ast.Call)]:
+        g = ex._single_target(c)
+        if g is None or g is calc or g.qual == S['pass_']:
+            continue
+        gl = _clearing_loops(g)
+        if not gl:
+            continue
+        helpers.append(g)
+        p0 = [x for x in g.params if x != g.self_name]
+        for lp, tv, sts in gl:
+            arg = None
+            if p0 and c.args:
+                arg = ex.expand(c.args[0])
+            sites.append((g, lp, tv, sts, arg, cfg.node_containing(c), p0[0] if p0 else None, c))
+    if not sites:
+        o.refute(calc, calc.node, 'clearing of summary fields', "user values on summary tasks are never cleared before scheduling")
         return
-    for c in calls:
-        a = ex.expand(c.args[0]) if c.args else None
-        if a is not None and match(f"{inp}.clone()", a):
-            cn = cfg.node_containing(c)
-            if all(cfg.dominates(cn, cfg.node_containing(pc)) for pc in pcalls) and not cfg.conditions(cn):
-                o.site(calc, c, f"{prep.name}(clone) dominates the pass")
-            else:
-                o.refute(calc, c, c, "summary fields are not cleared on every path before the pass runs")
-        elif isinstance(c.args[0] if c.args else None, ast.Name) and c.args[0].id == inp:
-            o.refute(calc, c, c, "summary fields are cleared on the INPUT WBS instead of the clone: the caller's tasks lose their values "
-                                 "and the clone keeps the user's summary dates")
+    if len(sites) > 1:
+        o.undecided(calc, calc.node, 'clearing of summary fields', "several clearing loops")
+        return
+    holder, lp, tv, sts, w, cn, wname, where = sites[0]
+    if w is not None and match(f"{inp}.clone()", w):
+        if all(cfg.dominates(cn, cfg.node_containing(pc)) for pc in pcalls) and not cfg.conditions(cn):
+            o.site(calc, where, "summary fields of the clone are cleared before the pass")
         else:
-            o.refute(calc, c, c, f"summary fields are cleared on `{src(a) if a is not None else '?'}`, not on the clone being scheduled")
-    # the helper itself
-    p0 = prep.params[-1]
-    loops = [n for n in walk_no_nested(prep.node) if isinstance(n, ast.For)]
-    if len(loops) != 1:
-        o.undecided(prep, prep.node, prep.name, "clearing helper is not a single loop")
-        return
-    lp = loops[0]
-    if not match(f"{p0}.tasks", lp.iter):
-        o.refute(prep, lp, lp.iter, f"summary fields are cleared for `{src(lp.iter)}` only; expected every task of the WBS ({p0}.tasks): "
+            o.refute(calc, where, where, "summary fields are not cleared on every path before the pass runs")
+    elif isinstance(w, ast.Name) and w.id == inp:
+        o.refute(calc, where, where, "summary fields are cleared on the INPUT WBS instead of the clone: the caller's tasks lose their values "
+                                     "and the clone keeps the user's summary dates")
+    else:
+        o.refute(calc, where, where, f"summary fields are cleared on `{src(w) if w is not None else '?'}`, not on the clone being scheduled")
+    prep = holder
+    if wname is None or not match(f"{wname}.tasks", lp.iter):
+        o.refute(prep, lp, lp.iter, f"summary fields are cleared for `{src(lp.iter)}` only; expected every task of the WBS (<wbs>.tasks): "
                                     f"nested summaries would keep the user's values")
         return
-    tv = lp.target.id if isinstance(lp.target, ast.Name) else None
     cleared_fields = {}
-    pcfg = cfg_of(prep)
-    for st, tgt, val in facts.attr_stores(prep):
-        if isinstance(tgt.value, ast.Name) and tgt.value.id == tv and isinstance(val, ast.Constant) and val.value is None:
-            conds = facts.node_conditions(prog, prep, st, ctx.typer)
-            okc = [1 for t, p in conds if (match(f"len({tv}.children) > 0", t) and p) or (match(f"len({tv}.children) == 0", t) and not p)
-                   or (match(f"len({tv}.children) != 0", t) and p) or (match(f"{tv}.children", t) and p) or
-                   (match(f"len({tv}.children)", t) and p)]
-            if len(okc) == len(conds) and okc:
-                cleared_fields[tgt.attr] = st
-            else:
-                o.refute(prep, st, st, f"{tgt.attr} is cleared under {facts.cond_texts(conds)}; expected exactly `task has children`")
+    hcfg = cfg_of(prep)
+    outer = hcfg.conditions(hcfg.node_of(lp))
+    for st, tgt, val in sts:
+        conds = facts.node_conditions(prog, prep, st, ctx.typer)
+        conds = conds[len(facts.node_conditions(prog, prep, lp, ctx.typer)):] if prep is calc else conds
+        okc = [1 for t, p in conds if (match(f"len({tv}.children) > 0", t) and p) or (match(f"len({tv}.children) == 0", t) and not p)
+               or (match(f"len({tv}.children) != 0", t) and p) or (match(f"{tv}.children", t) and p) or
+               (match(f"len({tv}.children)", t) and p)]
+        if len(okc) == len(conds) and okc:
+            cleared_fields[tgt.attr] = st
+        else:
+            o.refute(prep, st, st, f"{tgt.attr} is cleared under {facts.cond_texts(conds)}; expected exactly `task has children`")
     missing = [f for f in FIELDS if f not in cleared_fields]
     if missing:
         o.refute(prep, lp, 'cleared fields', "summary fields not cleared: " + ', '.join(missing))
